@@ -169,6 +169,47 @@ pub fn gen(thorough: bool, seed: u64, w: &mut dyn Write) {
         }
     }
 
+    // (3b) sessions: the session ends (`Reader::reset`, what the tasks do after every session) while a frame
+    //      is partly received — or after an error in Close mode —, the frames of the next session arrive intact
+    //      (S148: nothing of the old session, neither octets nor parser state, survives the reset)
+    let n_sess = if thorough { 20000 } else { 800 };
+    for _ in 0..n_sess {
+        let em = if r.chance(1, 2) { "c" } else { "d" };
+        let frag = if r.chance(3, 4) { *r.pick(&FRAGS) } else { r.range(249, 2048) as usize };
+        hdr(w, "sessions", "complete=1");
+        writeln!(w, "new {em} s {frag}").unwrap();
+        let ns = r.range(2, 4);
+        for si in 0..ns {
+            let last = si + 1 == ns;
+            // complete frames of this session
+            let nf = r.below(3) as usize + if last { 1 } else { 0 };
+            let frames: Vec<Frame> = (0..nf).map(|_| { let l = rand_len(&mut r); Frame::random(&mut r, l) }).collect();
+            let mut stream = Vec::new();
+            for f in &frames {
+                writeln!(w, "{}", f.expect_line()).unwrap();
+                stream.extend(f.image());
+            }
+            if !last {
+                // ... and the beginning of one more
+                let l = rand_len(&mut r);
+                let img = Frame::random(&mut r, l).image();
+                let cut = match r.below(4) {
+                    0 => 1,
+                    1 => 2,
+                    2 => 10.min(img.len() - 1),
+                    _ => r.range(1, (img.len() - 1) as u64) as usize,
+                };
+                stream.extend(&img[..cut]);
+            }
+            for c in chunk(&mut r, &stream, cap_of(frag)) {
+                writeln!(w, "feed {}", hex(&c)).unwrap();
+            }
+            if !last {
+                writeln!(w, "reset").unwrap();
+            }
+        }
+    }
+
     // (4) bit errors: weight 1 (dense), 2, 3 and heavier; followed by a clean frame
     let n_bit = if thorough { 120000 } else { 4000 };
     for i in 0..n_bit {
@@ -324,6 +365,8 @@ pub fn run(ops: &str, out: &mut dyn Write, mon: &mut dyn Write) {
             let mut expected: Vec<String> = Vec::new();
             let mut delivered: Vec<String> = Vec::new();
             let mut chunks: Vec<Vec<u8>> = Vec::new();
+            // number of chunks fed when a session ended (`reset`)
+            let mut session_ends: Vec<usize> = Vec::new();
             let mut errs = 0;
             for line in &lines {
                 let ws: Vec<&str> = line.split_whitespace().collect();
@@ -331,6 +374,11 @@ pub fn run(ops: &str, out: &mut dyn Write, mon: &mut dyn Write) {
                     ["new", em, rm, frag] => {
                         datagram = *rm == "g";
                         probe = hooks::LinkProbe::new(*em == "d", datagram, frag.parse().unwrap());
+                        writeln!(out, "ok").unwrap();
+                    }
+                    ["reset"] => {
+                        session_ends.push(chunks.len());
+                        probe.reset_reader();
                         writeln!(out, "ok").unwrap();
                     }
                     ["feed", h] => {
@@ -414,6 +462,16 @@ pub fn run(ops: &str, out: &mut dyn Write, mon: &mut dyn Write) {
                 // independent of how the octets were split into reads
                 let want: Vec<String> = if datagram {
                     chunks.iter().flat_map(|c| ref_scan(c)).collect()
+                } else if !session_ends.is_empty() {
+                    // every session is scanned by itself: nothing is carried over a `reset`
+                    let mut v = Vec::new();
+                    let mut from = 0;
+                    for to in session_ends.iter().copied().chain(std::iter::once(chunks.len())) {
+                        let s: Vec<u8> = chunks[from..to].iter().flatten().copied().collect();
+                        v.extend(ref_scan(&s));
+                        from = to;
+                    }
+                    v
                 } else {
                     ref_scan(&stream)
                 };
